@@ -21,7 +21,7 @@ import (
 func init() {
 	errTypes := map[string]string{"error": "EV", "bool": "Bool", "string": "String"}
 	units["GoIsBadRequest"] = &unit{
-		name: "GoIsBadRequest", file: "errors.go", recv: "", funcs: []string{"IsBadRequest"},
+		name: "GoIsBadRequest", file: "errors.go", recv: "", funcs: []string{"IsBadRequest"}, addrCells: true,
 		imports: []string{"CircuitModel.GoErrsPrims"}, open: []string{"CM", "CM.Go", "CM.GoErrs", "CM.GoErrs.IsBad"}, vars: "", monad: "HM", types: errTypes,
 	}
 	units["GoCircuitError"] = &unit{
